@@ -307,6 +307,14 @@ def main(tier):
                 run.violation("correspondence:peg-custom", {"stream": "peg-custom", "pattern": pat, "source": src, "implementation": a[:300], "model": b[:300]})
         run.sample({"oracle": "transparent", "line": linesX[0][:200], "out": oX[0][:200]})
         run.sample({"oracle": "acting", "line": lines[0][:200], "out": out[0][:200]})
+        # the syntaxes a context has registered hold for every text it compiles — also the ones compiled late: RunExpr, computed values and
+        # functions restored from JSON (their bodies arrive as text)
+        ll = [f"customlazy {r.getrandbits(128):032x} {hx(b_)}" for b_ in ("E5 + 1", "E7", "(E5)+E6", "[E1, E2].sum()", "E3 * 2 + d1", "`{E4}`", "E9 > 3 ? E1 : E2")]
+        for ln, g in run.go_only("custom-lazy-bodies", ll):
+            run.nontriv(("customlazy", ln))
+            outs = g.rsplit(" calls=", 1)[0].split(" | ")
+            if len(outs) != 4 or len(set(outs)) != 1 or outs[0].startswith("err:"):
+                run.violation("custom-term-lost-in-a-text-compiled-late", {"body": unhx(ln.split()[2]).decode(), "direct | RunExpr | restored computed | restored function": g[:400]})
     return run.finish(
         trusted=["Lean 4.33 kernel", "axioms: propext, Classical.choice, Quot.sound", "Go harness (registers the parsers / hooks, logs handler calls) + Lean driver",
                  "regular-expression matching itself (Go regexp) is outside the model: the model takes the match length per offset as a parameter"],
